@@ -23,9 +23,10 @@ import (
 type totalCase struct {
 	Fam   string `json:"fam"`
 	Src   []int  `json:"src"`
-	Shape string `json:"shape"`
-	N     int    `json:"n"`
-	NT    bool   `json:"nt"`
+	Shape  string `json:"shape"`
+	N      int    `json:"n"`
+	Expect string `json:"expect"`
+	NT     bool   `json:"nt"`
 }
 
 func scaleSource(shape string, n int) string {
@@ -55,9 +56,9 @@ func scaleSource(shape string, n int) string {
 	case "long-and", "long-or":
 		m := (n - 2) / 2
 		op := "and"
-		first := "1"
+		first := "0" // the run that takes the short-circuit jump
 		if shape == "long-or" {
-			op, first = "or", "0"
+			op, first = "or", "1"
 		}
 		sb.WriteString("print " + first + " " + op + " (1" + strings.Repeat("+1", m) + ")\n")
 	case "repeat":
@@ -249,6 +250,17 @@ func replayTotal(args []string) int {
 		}
 		var rs []totalRes
 		json.Unmarshal(rep.line, &rs)
+		if c.Expect != "" {
+			// shapes whose outcome the specification states in closed form (jump distance limit)
+			var out bytes.Buffer
+			_, _, ierr := bcl.Interpret(src, bcl.OptOutput(&out), bcl.OptLogger(io.Discard))
+			switch {
+			case c.Expect == "compile-error" && (ierr == nil || strings.HasPrefix(ierr.Error(), "runtime error")):
+				s.bad(fmt.Sprintf("%s n=%d: a jump distance beyond 65535 must be rejected at compile time, got err=%v out=%q", c.Shape, c.N, ierr, out.String()), "limit:jump-accepted", raw, out.String(), true)
+			case strings.HasPrefix(c.Expect, "prints:") && (ierr != nil || out.String() != strings.TrimPrefix(c.Expect, "prints:")+"\n"):
+				s.bad(fmt.Sprintf("%s n=%d: expected to print %s, got err=%v out=%q", c.Shape, c.N, strings.TrimPrefix(c.Expect, "prints:"), ierr, trunc(out.Bytes(), 80)), "limit:jump-result", raw, string(trunc(out.Bytes(), 200)), true)
+			}
+		}
 		for _, r := range rs {
 			s.Classes[r.Class]++
 			if r.Class == "panic" {
